@@ -131,6 +131,9 @@ pub mod u {
         c03_u_9 = [9];
         c03_u_2_2 = [2, 2];
         c03_u_2_3_2_3 = [2, 3, 2, 3];
+        c03_u_4 = [4];
+        c03_u_4_2_4 = [4, 2, 4];
+        c03_u_5_3 = [5, 3];
     }
 }
 pub mod t {
